@@ -78,7 +78,9 @@ Definition advance_suspend_lk_old (s : pubq) (h : nat) (a : Z) : pubq * bool :=
 (* get_value_lk, lines 233-253.  _q[i] with i >= _q.size() is undefined behaviour: GUb *)
 Inductive gres := GVal (v : Z) | GEos | GUb.
 Definition qidx (q : list Z) (i : Z) : gres :=
-  match nth_error q (Z.to_nat i) with Some v => GVal v | None => GUb end.
+  if (0 <=? i) && (i <? zlen q)
+  then match nth_error q (Z.to_nat i) with Some v => GVal v | None => GUb end
+  else GUb.
 
 Definition get_value_lk (s : pubq) (h : nat) (t : Z) : gres :=
   let l := rget (regs s) h in
@@ -135,10 +137,11 @@ Definition kick_lk (s : pubq) (sub : Z) : pubq * list Z :=
 (* ====================== test level: subscriber objects and the op alphabet ====================== *)
 (* A subscriber<T> object: its handle _h, its mode _t; s_live = false after its destructor ran.
    Object ids (sid) are chosen by the op and never reused; the id is also the `const subscriber*`
-   identity handed to the queue. *)
+   identity handed to the queue.  palive = the publisher<T> object still exists (its destructor closes
+   the queue; the queue itself lives on through the subscribers' shared_ptr). *)
 Record sobj := mkSo { s_h : nat; s_mode : Z; s_live : bool }.
-Record tst := mkT { pq : pubq; objs : list (option sobj); nawt : Z }.
-Definition tst0 (mn mx : Z) : tst := mkT (pubq0 mn mx) [] 0.
+Record tst := mkT { pq : pubq; objs : list (option sobj); nawt : Z; palive : bool }.
+Definition tst0 (mn mx : Z) : tst := mkT (pubq0 mn mx) [] 0 true.
 
 Inductive op :=
 | OPub (v : Z)                  (* publisher::publish(v) *)
@@ -147,12 +150,13 @@ Inductive op :=
 | OSubAt (s : nat) (t p : Z)    (* subscriber(pub, p, t) *)
 | OSubCopy (s src : nat)        (* subscriber(const subscriber &src) *)
 | OReady (s : nat)              (* next().await_ready()  = queue::advance *)
-| OSuspend (s : nat)            (* next().subscribe(awt) = queue::advance_suspend; awt gets id nawt *)
+| OSuspend (s : nat)            (* next().subscribe(awt) / await_suspend = queue::advance_suspend; awt gets id nawt *)
 | OGet (s : nat)                (* next().await_resume() = queue::get_value *)
-| OKick (s : nat)               (* publisher::kick(&s) — s may already be destroyed *)
+| OKick (s : nat)               (* publisher::kick(&s) (s may already be destroyed) / s.kick_me() *)
 | OLeave (s : nat)              (* ~subscriber *)
-| OClose
-| OPosition (s : nat)
+| OClose                        (* publisher::close() *)
+| OPosition (s : nat)           (* subscriber::position() *)
+| ODestroyPub                   (* ~publisher *)
 | OBad.
 
 (* observation: status (0 ok, 1 rejected, -999 undefined behaviour), three scalars, resumed awaiter ids *)
@@ -171,24 +175,27 @@ Definition valid_mode (t : Z) : bool := (0 <=? t) && (t <=? 2).
 Definition HALF : Z := 4611686018427387904.   (* 2^62: positions on the wire are below this *)
 Definition pos_of (s : pubq) (h : nat) : Z := r_pos (rget (regs s) h).   (* queue::position, line 101 *)
 
+Definition with_pq (e : tst) (q : pubq) : tst := mkT q (objs e) (nawt e) (palive e).
 Definition new_sub (e : tst) (s : nat) (t : Z) (r : pubq * nat) : tst * obs :=
-  let '(q1, h) := r in
-  (mkT q1 (put (objs e) s (Some (mkSo h t true))) (nawt e), ok3 (Z.of_nat h) (pos_of q1 h) 0).
+  (mkT (fst r) (put (objs e) s (Some (mkSo (snd r) t true))) (nawt e) (palive e),
+   ok3 (Z.of_nat (snd r)) (pos_of (fst r) (snd r)) 0).
 
 (* `sus` is the advance_suspend_lk variant (current code / code before the fix) *)
 Definition step_gen (sus : pubq -> nat -> Z -> pubq * bool) (e : tst) (x : op) : tst * obs :=
   match x with
-  | OPub v => let '(q1, w) := push1 (pq e) v in (mkT q1 (objs e) (nawt e), okw w)
-  | OBatch vs => let '(q1, w) := push_batch (pq e) vs in (mkT q1 (objs e) (nawt e), okw w)
+  | OPub v => if palive e then (with_pq e (fst (push1 (pq e) v)), okw (snd (push1 (pq e) v))) else (e, rejected)
+  | OBatch vs => if palive e then (with_pq e (fst (push_batch (pq e) vs)), okw (snd (push_batch (pq e) vs)))
+                 else (e, rejected)
   | OSubRecent s t =>
       match get (objs e) s with
       | Some _ => (e, rejected)
-      | None => if valid_mode t then new_sub e s t (subscribe_recent_lk (pq e) (Z.of_nat s)) else (e, rejected)
+      | None => if valid_mode t && palive e then new_sub e s t (subscribe_recent_lk (pq e) (Z.of_nat s))
+                else (e, rejected)
       end
   | OSubAt s t p =>
       match get (objs e) s with
       | Some _ => (e, rejected)
-      | None => if valid_mode t && (0 <=? p) && (p <? HALF)
+      | None => if valid_mode t && palive e && (0 <=? p) && (p <? HALF)
                 then new_sub e s t (subscribe_lk (pq e) (Z.of_nat s) p) else (e, rejected)
       end
   | OSubCopy s src =>
@@ -199,14 +206,14 @@ Definition step_gen (sus : pubq -> nat -> Z -> pubq * bool) (e : tst) (x : op) :
   | OReady s =>
       match live_obj e s with
       | None => (e, rejected)
-      | Some o => let '(q1, b) := advance_lk (pq e) (s_h o) (s_mode o) in
-                  (mkT q1 (objs e) (nawt e), ok3 (b2z b) (pos_of q1 (s_h o)) 0)
+      | Some o => let r := advance_lk (pq e) (s_h o) (s_mode o) in
+                  (with_pq e (fst r), ok3 (b2z (snd r)) (pos_of (fst r) (s_h o)) 0)
       end
   | OSuspend s =>
       match live_obj e s with
       | None => (e, rejected)
-      | Some o => let '(q1, b) := sus (pq e) (s_h o) (nawt e) in
-                  (mkT q1 (objs e) (nawt e + 1), ok3 (b2z b) (pos_of q1 (s_h o)) (nawt e))
+      | Some o => let r := sus (pq e) (s_h o) (nawt e) in
+                  (mkT (fst r) (objs e) (nawt e + 1) (palive e), ok3 (b2z (snd r)) (pos_of (fst r) (s_h o)) (nawt e))
       end
   | OGet s =>
       match live_obj e s with
@@ -220,20 +227,24 @@ Definition step_gen (sus : pubq -> nat -> Z -> pubq * bool) (e : tst) (x : op) :
   | OKick s =>
       match get (objs e) s with
       | None => (e, rejected)
-      | Some _ => let '(q1, w) := kick_lk (pq e) (Z.of_nat s) in (mkT q1 (objs e) (nawt e), okw w)
+      | Some o => if palive e || s_live o
+                  then (with_pq e (fst (kick_lk (pq e) (Z.of_nat s))), okw (snd (kick_lk (pq e) (Z.of_nat s))))
+                  else (e, rejected)
       end
   | OLeave s =>
       match live_obj e s with
       | None => (e, rejected)
-      | Some o => (mkT (leave_lk (pq e) (s_h o)) (put (objs e) s (Some (mkSo (s_h o) (s_mode o) false))) (nawt e),
-                   ok3 0 0 0)
+      | Some o => (mkT (leave_lk (pq e) (s_h o)) (put (objs e) s (Some (mkSo (s_h o) (s_mode o) false))) (nawt e)
+                       (palive e), ok3 0 0 0)
       end
-  | OClose => let '(q1, w) := close_q (pq e) in (mkT q1 (objs e) (nawt e), okw w)
+  | OClose => if palive e then (with_pq e (fst (close_q (pq e))), okw (snd (close_q (pq e)))) else (e, rejected)
   | OPosition s =>
       match live_obj e s with
       | None => (e, rejected)
       | Some o => (e, ok3 (pos_of (pq e) (s_h o)) 0 0)
       end
+  | ODestroyPub => if palive e then (mkT (fst (close_q (pq e))) (objs e) (nawt e) false, okw (snd (close_q (pq e))))
+                   else (e, rejected)
   | OBad => (e, rejected)
   end.
 
@@ -243,8 +254,8 @@ Definition step_old := step_gen advance_suspend_lk_old.
 Fixpoint run_gen (sus : pubq -> nat -> Z -> pubq * bool) (e : tst) (l : list op) : list obs * tst :=
   match l with
   | [] => ([], e)
-  | x :: t => let '(e1, o) := step_gen sus e x in
-              let '(os, e2) := run_gen sus e1 t in (o :: os, e2)
+  | x :: t => let r := run_gen sus (fst (step_gen sus e x)) t in
+              (snd (step_gen sus e x) :: fst r, snd r)
   end.
 Definition run_from := run_gen advance_suspend_lk.
 
@@ -258,44 +269,53 @@ Definition run_from := run_gen advance_suspend_lk.
    follow the next() protocol (ready; suspend only after ready=false; get only after ready=true /
    suspend=false / being woken; no destructor while parked), an op that the model rejects was reported as
    executed, undefined behaviour was reported, or a position / the stream length reached 2^62.
-   m_bad (sticky): a wake-up list or a subscription position contradicts the specification. *)
+   m_bad (sticky): a wake-up list or a subscription position contradicts the specification.
+   m_lost r: an end of stream is legitimate for r because it lagged more than max behind (all_values), or it
+   was subscribed at a position outside the guaranteed window / in the future, or it was copied from a
+   subscriber that was lost, ended, kicked or in the middle of next(). *)
 Inductive pc := PIdle | PRF | PAdv | PParked (a : Z).
 Record srec := mkSr { m_live : bool; m_mode : Z; m_pc : pc; m_start : Z; m_cur : Z;
                       m_deliv : list (Z * Z * Z); m_eos : bool; m_eos_ok : bool;
                       m_kicked : bool; m_lost : bool }.
 Record mon := mkM { m_log : list Z; m_closed : bool; m_viol : bool; m_bad : bool;
-                    m_subs : list (option srec); m_woken : list Z; m_min : Z; m_max : Z }.
-Definition mon0 (mn mx : Z) : mon := mkM [] false false false [] [] mn mx.
+                    m_subs : list (option srec); m_min : Z; m_max : Z }.
+Definition mon0 (mn mx : Z) : mon := mkM [] false false false [] mn mx.
 
 Definition npub (m : mon) : Z := zlen (m_log m).
 Definition consumed (r : srec) : Z := m_start r + zlen (m_deliv r).
 
 Definition set_viol (m : mon) : mon :=
-  mkM (m_log m) (m_closed m) true (m_bad m) (m_subs m) (m_woken m) (m_min m) (m_max m).
+  mkM (m_log m) (m_closed m) true (m_bad m) (m_subs m) (m_min m) (m_max m).
 Definition add_bad (m : mon) (b : bool) : mon :=
-  mkM (m_log m) (m_closed m) (m_viol m) (m_bad m || b) (m_subs m) (m_woken m) (m_min m) (m_max m).
+  mkM (m_log m) (m_closed m) (m_viol m) (m_bad m || b) (m_subs m) (m_min m) (m_max m).
 Definition set_sub (m : mon) (s : nat) (r : srec) : mon :=
-  mkM (m_log m) (m_closed m) (m_viol m) (m_bad m) (put (m_subs m) s (Some r)) (m_woken m) (m_min m) (m_max m).
+  mkM (m_log m) (m_closed m) (m_viol m) (m_bad m) (put (m_subs m) s (Some r)) (m_min m) (m_max m).
 
-Definition parked_rec (o : option srec) : list Z :=
+Definition with_pc (r : srec) (p : pc) : srec :=
+  mkSr (m_live r) (m_mode r) p (m_start r) (m_cur r) (m_deliv r) (m_eos r) (m_eos_ok r) (m_kicked r) (m_lost r).
+Definition with_lost (r : srec) (b : bool) : srec :=
+  mkSr (m_live r) (m_mode r) (m_pc r) (m_start r) (m_cur r) (m_deliv r) (m_eos r) (m_eos_ok r) (m_kicked r) b.
+
+(* is the live record parked on awaiter a? *)
+Definition parked_on (a : Z) (o : option srec) : bool :=
   match o with
-  | Some r => if m_live r then match m_pc r with PParked a => [a] | _ => [] end else []
-  | None => []
+  | Some r => m_live r && match m_pc r with PParked b => a =? b | _ => false end
+  | None => false
   end.
-Definition parked_of (l : list (option srec)) : list Z := flat_map parked_rec l.
+(* the awaiter of a live parked record is in w *)
+Definition parked_in (w : list Z) (o : option srec) : bool :=
+  match o with
+  | Some r => if m_live r then match m_pc r with PParked a => memz a w | _ => true end else true
+  | None => true
+  end.
+(* w = exactly the awaiters of the live parked records, each once *)
+Definition wake_all_ok (subs : list (option srec)) (w : list Z) : bool :=
+  nodup_b w && forallb (fun a => existsb (parked_on a) subs) w && forallb (parked_in w) subs.
 
-Definition wake_rec (r : srec) : srec :=
-  match m_pc r with
-  | PParked _ => mkSr (m_live r) (m_mode r) PAdv (m_start r) (m_cur r) (m_deliv r) (m_eos r) (m_eos_ok r)
-                      (m_kicked r) (m_lost r)
-  | _ => r
-  end.
+Definition wake_rec (r : srec) : srec := match m_pc r with PParked _ => with_pc r PAdv | _ => r end.
 (* after a publish of total length n: an all_values subscriber with more than max undelivered values has lagged *)
 Definition lag_rec (n mx : Z) (r : srec) : srec :=
-  if (m_mode r =? 0) && (mx <? n - consumed r)
-  then mkSr (m_live r) (m_mode r) (m_pc r) (m_start r) (m_cur r) (m_deliv r) (m_eos r) (m_eos_ok r)
-            (m_kicked r) true
-  else r.
+  if (m_mode r =? 0) && (mx <? n - consumed r) then with_lost r true else r.
 
 Fixpoint eqlz (a b : list Z) : bool :=
   match a, b with
@@ -306,9 +326,9 @@ Fixpoint eqlz (a b : list Z) : bool :=
 
 (* publish of a non-empty batch / close: every parked awaiter is resumed *)
 Definition mon_wake_all (m : mon) (lg : list Z) (cl : bool) (w : list Z) : mon :=
-  mkM lg cl (m_viol m) (m_bad m || negb (perm_b (parked_of (m_subs m)) w))
+  mkM lg cl (m_viol m) (m_bad m || negb (wake_all_ok (m_subs m) w))
       (map (option_map (fun r => lag_rec (zlen lg) (m_max m) (wake_rec r))) (m_subs m))
-      (m_woken m ++ w) (m_min m) (m_max m).
+      (m_min m) (m_max m).
 
 Definition mon_publish (m : mon) (vs : list Z) (w : list Z) : mon :=
   match vs with
@@ -316,6 +336,8 @@ Definition mon_publish (m : mon) (vs : list Z) (w : list Z) : mon :=
   | _ => if HALF <=? zlen (m_log m) + zlen vs + 1 then set_viol m
          else mon_wake_all m (m_log m ++ vs) (m_closed m) w
   end.
+Definition mon_close (m : mon) (w : list Z) : mon :=
+  if m_closed m then add_bad m (negb (eqlz w [])) else mon_wake_all m (m_log m) true w.
 
 Definition new_rec (t p : Z) (lost : bool) : srec := mkSr true t PIdle p p [] false true false lost.
 Definition in_window (m : mon) (t p : Z) : bool :=
@@ -330,8 +352,8 @@ Definition mon_step (m : mon) (x : op) (o : obs) : mon :=
   match x with
   | OPub v => mon_publish m [v] (o_wk o)
   | OBatch vs => mon_publish m vs (o_wk o)
-  | OClose => if m_closed m then add_bad m (negb (eqlz (o_wk o) []))
-              else mon_wake_all m (m_log m) true (o_wk o)
+  | OClose => mon_close m (o_wk o)
+  | ODestroyPub => mon_close m (o_wk o)
   | OSubRecent s t =>
       match get (m_subs m) s with
       | Some _ => set_viol m
@@ -378,9 +400,7 @@ Definition mon_step (m : mon) (x : op) (o : obs) : mon :=
           match m_pc r with
           | PAdv =>
               if negb (m_live r) then set_viol m else
-              if m_eos r then
-                set_sub m s (mkSr true (m_mode r) PIdle (m_start r) (m_cur r) (m_deliv r) true (m_eos_ok r)
-                                  (m_kicked r) (m_lost r))
+              if m_eos r then set_sub m s (with_pc r PIdle)
               else if o_a o =? 0 then
                 let drained := if m_mode r =? 0 then consumed r =? npub m else m_cur r =? npub m + 1 in
                 set_sub m s (mkSr true (m_mode r) PIdle (m_start r) (m_cur r) (m_deliv r) true
@@ -398,10 +418,9 @@ Definition mon_step (m : mon) (x : op) (o : obs) : mon :=
           if m_live r then
             let exp := match m_pc r with PParked a => [a] | _ => [] end in
             let r1 := wake_rec r in
-            let m1 := set_sub m s (mkSr true (m_mode r1) (m_pc r1) (m_start r1) (m_cur r1) (m_deliv r1)
-                                        (m_eos r1) (m_eos_ok r1) true (m_lost r1)) in
-            mkM (m_log m1) (m_closed m1) (m_viol m1) (m_bad m1 || negb (eqlz exp (o_wk o))) (m_subs m1)
-                (m_woken m1 ++ o_wk o) (m_min m1) (m_max m1)
+            add_bad (set_sub m s (mkSr true (m_mode r1) (m_pc r1) (m_start r1) (m_cur r1) (m_deliv r1)
+                                       (m_eos r1) (m_eos_ok r1) true (m_lost r1)))
+                    (negb (eqlz exp (o_wk o)))
           else add_bad m (negb (eqlz (o_wk o) []))
       | None => set_viol m
       end
@@ -427,7 +446,7 @@ Definition mon_step (m : mon) (x : op) (o : obs) : mon :=
 Fixpoint mon_run (m : mon) (l : list (op * obs)) : mon :=
   match l with
   | [] => m
-  | (x, o) :: t => mon_run (mon_step m x o) t
+  | xo :: t => mon_run (mon_step m (fst xo) (snd xo)) t
   end.
 
 (* ---------- the judgement on what the monitor recorded ---------- *)
@@ -441,49 +460,52 @@ Fixpoint contig_b (start : Z) (lg : list Z) (d : list (Z * Z * Z)) : bool :=
                       && contig_b start lg t
   end.
 (* skip modes: positions strictly increasing and above the start *)
+Definition last_pos (start : Z) (d : list (Z * Z * Z)) : Z :=
+  match d with [] => start | (p, _, _) :: _ => p end.
 Fixpoint incr_b (start : Z) (d : list (Z * Z * Z)) : bool :=
   match d with
   | [] => true
-  | (p, v, n) :: t => (match t with [] => start <? p | (p', _, _) :: _ => p' <? p end) && incr_b start t
+  | (p, v, n) :: t => (last_pos start t <? p) && incr_b start t
   end.
-(* skip modes: the value is one that was published at a position >= the reported one (strict: exactly there);
-   skip_to_recent: it is the newest value at the time of delivery *)
-Definition skipval_b (strict : bool) (t : Z) (lg : list Z) (x : Z * Z * Z) : bool :=
+(* skip modes (subscriber not subscribed in the future): the reported position is a published one;
+   skip_to_recent: the value is the newest at the time of delivery; skip_if_behind: it was published at a
+   position >= the reported one *)
+Definition skipval_b (t : Z) (lg : list Z) (x : Z * Z * Z) : bool :=
   let '(p, v, n) := x in
   (1 <=? p) && (p <=? n) && (n <=? zlen lg) &&
-  (if strict then v =? nthz lg (p - 1)
-   else if t =? 2 then v =? nthz lg (n - 1)
+  (if t =? 2 then v =? nthz lg (n - 1)
    else memz v (firstn (Z.to_nat (n - p + 1)) (skipn (Z.to_nat (p - 1)) lg))).
 
-Definition rec_good_b (strict : bool) (lg : list Z) (o : option srec) : bool :=
+Definition rec_good_b (lg : list Z) (o : option srec) : bool :=
   match o with
   | None => true
   | Some r =>
       (if m_mode r =? 0 then contig_b (m_start r) lg (m_deliv r)
-       else incr_b (m_start r) (m_deliv r) && forallb (skipval_b strict (m_mode r) lg) (m_deliv r))
+       else incr_b (m_start r) (m_deliv r) && (m_lost r || forallb (skipval_b (m_mode r) lg) (m_deliv r)))
       && (negb (m_eos r) || m_eos_ok r)
   end.
 
-Definition good_b (strict : bool) (m : mon) : bool :=
-  negb (m_bad m) && forallb (rec_good_b strict (m_log m)) (m_subs m)
-  && nodup_b (m_woken m ++ parked_of (m_subs m)).
+Definition good_b (m : mon) : bool :=
+  negb (m_bad m) && forallb (rec_good_b (m_log m)) (m_subs m).
 
 (* ---------- wire encoding ---------- *)
 Definition n (z : Z) : nat := Z.to_nat z.
+Definition small (z : Z) : bool := (0 <=? z) && (z <? 1000000).
 Definition decode (l : list Z) : op :=
   match l with
   | [0; v] => OPub v
   | 1 :: vs => OBatch vs
-  | [2; s; t] => if 0 <=? s then OSubRecent (n s) t else OBad
-  | [3; s; t; p] => if 0 <=? s then OSubAt (n s) t p else OBad
-  | [4; s; src] => if (0 <=? s) && (0 <=? src) then OSubCopy (n s) (n src) else OBad
-  | [5; s] => if 0 <=? s then OReady (n s) else OBad
-  | [6; s] => if 0 <=? s then OSuspend (n s) else OBad
-  | [7; s] => if 0 <=? s then OGet (n s) else OBad
-  | [8; s] => if 0 <=? s then OKick (n s) else OBad
-  | [9; s] => if 0 <=? s then OLeave (n s) else OBad
+  | [2; s; t] => if small s then OSubRecent (n s) t else OBad
+  | [3; s; t; p] => if small s then OSubAt (n s) t p else OBad
+  | [4; s; src] => if small s && small src then OSubCopy (n s) (n src) else OBad
+  | [5; s] => if small s then OReady (n s) else OBad
+  | [6; s] => if small s then OSuspend (n s) else OBad
+  | [7; s] => if small s then OGet (n s) else OBad
+  | [8; s] => if small s then OKick (n s) else OBad
+  | [9; s] => if small s then OLeave (n s) else OBad
   | [10] => OClose
-  | [11; s] => if 0 <=? s then OPosition (n s) else OBad
+  | [11; s] => if small s then OPosition (n s) else OBad
+  | [12] => ODestroyPub
   | _ => OBad
   end.
 
@@ -514,16 +536,15 @@ Definition pub_run_gen (sus : pubq -> nat -> Z -> pubq * bool) (ops : list (list
       end
   end.
 Definition pub_run := pub_run_gen advance_suspend_lk.
+Definition pub_run_old := pub_run_gen advance_suspend_lk_old.
 
-Definition pub_oracle_gen (strict : bool) (ops obsl : list (list Z)) : bool :=
+Definition pub_oracle (ops obsl : list (list Z)) : bool :=
   Nat.eqb (length ops) (length obsl) &&
   match ops, obsl with
   | c :: t, _ :: ot =>
       match cfg_of c with
-      | Some (mn, mx) => good_b strict (mon_run (mon0 mn mx) (combine (map decode t) (map dec_obs ot)))
+      | Some (mn, mx) => good_b (mon_run (mon0 mn mx) (combine (map decode t) (map dec_obs ot)))
       | None => true
       end
   | _, _ => true
   end.
-Definition pub_oracle := pub_oracle_gen false.
-Definition pub_oracle_strict := pub_oracle_gen true.
